@@ -424,6 +424,59 @@ def run_sequences(ctx, thorough=False):
                         break
 
 
+def run_long_association(ctx, total_bytes, msg_bytes=4 << 20, replaying=False):
+    """ONE association that carries a great many ordinary messages (archives keep associations open for hours): more
+    than total_bytes of P-DATA in all.  Every message is reassembled like the first one."""
+    from .. import simnet, convs
+    from pynetdicom2 import asceprovider
+    from pydicom import uid
+    FIND = '1.2.840.10008.5.1.4.1.2.1.1'
+    ctxs = {5: asceprovider.PContextDef(5, uid.UID(FIND), uid.UID(convs.IMPLICIT))}
+    fields = {0x0002: FIND, 0x0100: 0x0020, 0x0110: 77, 0x0700: 0, 0x0800: 1}
+    data = dg.patterned(msg_bytes - 13, 3)
+    pdus = [refpdu.enc_pdu({'t': 4, 'r': 0, 'pdvs': [f]}) for f in dg.ref_fragments(refcmd.encode(fields), data, 65536, 5)]
+    n_msgs = total_bytes // sum(len(p) for p in pdus) + 2
+    case = {'long_association': True, 'total_bytes': total_bytes, 'msg_bytes': msg_bytes}
+    state = {'seen': 0, 'bad': None}
+
+    def fetch(sim):
+        # the local user fetches what has been indicated so far (and drops it)
+        q = sim.provider.to_service_user
+        while not q.empty():
+            item = q.get(False)
+            if not isinstance(item, tuple):
+                continue
+            state['seen'] += 1
+            msg, pc_id = item
+            if state['bad'] is None and (pc_id != 5 or msg.data_set != data or msg.message_id != 77):
+                state['bad'] = 'message %d of the association: context %r, message id %r, %d data bytes (sent: 5, 77, %d)' % (
+                    state['seen'], pc_id, msg.message_id, len(msg.data_set or b''), len(data))
+        sim.log[:] = [e for e in sim.log if e[0] != 'ind']
+    script = [{'k': 'seg', 'data': refpdu.enc_pdu(convs.RQ_SPEC), 'eager': False},
+              {'k': 'user', 'prim': convs.user_prim({'pdu': convs.AC_SPEC})}]
+    for _ in range(n_msgs):
+        script += [{'k': 'seg', 'data': p, 'eager': True} for p in pdus]
+        script.append({'k': 'call', 'fn': fetch})
+    script.append({'k': 'close', 'eager': False})
+    ctx.case(('long-association', total_bytes), True, labels=['long-association', 'GiB=%.1f' % (total_bytes / float(1 << 30))],
+             sample={'messages': n_msgs, 'bytes each': msg_bytes, 'total': n_msgs * msg_bytes})
+    sim = simnet.run_scenario('acceptor', script, accepted_contexts=ctxs, budget=60 * len(script) + 10000)
+    fetch(sim)
+    wrote = [p['t'] for p in refpdu.parse_stream(sim.wire())]
+    if sim.outcome[0] != 'returned' or state['bad'] or state['seen'] != n_msgs or wrote != [2]:
+        what = ('one association carrying %d messages of %d bytes (%.2f GiB in all): %d delivered%s; provider wrote PDU types '
+                '%r; loop %r' % (n_msgs, msg_bytes, n_msgs * msg_bytes / float(1 << 30), state['seen'],
+                                 '; ' + state['bad'] if state['bad'] else '', wrote, sim.outcome[:2]))
+        if replaying:
+            raise Violation('C07:long-association', what, case)
+        ctx.fail('C07:long-association', what, case)
+
+
+def shard_long(ctx, job):
+    warnings.simplefilter('ignore')
+    run_long_association(ctx, job['total'])
+
+
 @st.composite
 def random_case(draw):
     cf = draw(st.sampled_from(dg.ALL_CF + [1] * 20))
@@ -470,7 +523,7 @@ def run(ctx):
                 'encoder (a quarter by the library), every composition of the fragment list into P-DATA-TF PDUs '
                 'for lists up to the bound (2^(n-1) groupings each), Hypothesis-drawn groupings for longer lists; '
                 'in-memory, temp-file, directory-backed and spool-file (application get_file reporting a non-zero start) reception; Command Data Set Type of data-bearing messages drawn from {0001H, 0000H, 0102H, FFFFH, 0100H, any value but 0101H}; genuine data sets in 3 transfer syntaxes; sequences of 2-3 (thorough 4) messages of mixed kind on one '
-                'association through the real provider loop; '
+                'association through the real provider loop; one association carrying 1.1 GiB (thorough: 4.5 GiB) of ordinary 4 MiB messages; '
                 'non-trivial = >=3 fragments and a grouping that is neither all-singletons nor one block; '
                 'distinct by (message, M, L, grouping, reception)')
     ctx.assumptions = ['fragments of one message only per PDU sequence (statement scope)',
@@ -478,6 +531,9 @@ def run(ctx):
     maxfrag = 14 if ctx.thorough else 9
     total = 23 * (36 if ctx.thorough else 9)
     idx = list(range(total))
+    # (the long association runs beside the exhaustive part: 1.1 GiB in the quick tier, 2^32 bytes and more in the thorough one)
+    parallel(ctx, shard_long, [{'total': (9 << 29) if ctx.thorough else (1 << 30) + (1 << 26)}] if not ctx.thorough
+             else [{'total': 9 << 29}, {'total': (1 << 31) + (1 << 26)}], procs=2)
     parallel(ctx, run_exhaustive, [{'indices': idx[i::16], 'maxfrag': maxfrag} for i in range(16)])
     run_real(ctx)
     run_tiny(ctx)
@@ -490,6 +546,10 @@ def run(ctx):
 
 def replay(case):
     warnings.simplefilter('ignore')
+    if case.get('long_association'):
+        from ..common import Ctx
+        run_long_association(Ctx('C07', 'quick', 1), case['total_bytes'], case['msg_bytes'], replaying=True)
+        return
     if 'sequence' in case:
         from ..common import Ctx
         sub = Ctx('C07', 'thorough', 1)
